@@ -1,5 +1,5 @@
 (* Proofs for C17 (model/GenPath.v). *)
-From Coq Require Import List NArith ZArith Bool Arith Lia Decimal DecimalNat DecimalFacts.
+From Coq Require Import List NArith ZArith Bool Arith Lia Decimal DecimalNat DecimalFacts Permutation.
 From XV Require Import model.Walk model.GenPath proofs.Walk_lemmas.
 Import ListNotations.
 Open Scope N_scope.
@@ -147,19 +147,20 @@ Qed.
 
 Section GenTheorems.
   Variable esc : str -> str.
+  Variable SE : nat -> node -> list edge.
   Variable h : heap.
   Variable gens : list (list (str * str)).
 
   Notation cut := (cut_sealed h).
   Notation expanded := (expanded h cut).
-  Notation out_edges := (out_edges h (node_edges true)).
-  Notation path := (path h (node_edges true) cut).
+  Notation out_edges := (out_edges h SE).
+  Notation path := (path h SE cut).
 
   Definition keys_ok : Prop :=
     forall n e k, expanded n -> In e (out_edges n) -> In k (fst e) -> plain (esc k) = true.
   Definition files_ok : Prop :=
     forall c af, In c gens -> In af c -> plain (snd af) = true.
-  Definition all_unamb : Prop := forall n, unamb h (node_edges true) cut n.
+  Definition all_unamb : Prop := forall n, unamb h SE cut n.
 
   Lemma path_keys : keys_ok -> forall a p c, path a p c -> Forall (fun k => plain (esc k) = true) p.
   Proof.
@@ -174,32 +175,32 @@ Section GenTheorems.
   Qed.
 
   (* the Sealer always terminates *)
-  Theorem generated_total : forall root jd, exists l, generated esc h gens root jd = Some l.
+  Theorem generated_total : forall root jd, exists l, generated esc SE h gens root jd = Some l.
   Proof.
-    intros. unfold generated. destruct (walk_correct h (node_edges true) cut root) as [evs [E _]].
+    intros. unfold generated. destruct (walk_correct h SE cut root) as [evs [E _]].
     rewrite E. eauto.
   Qed.
 
   Lemma generated_inv root jd l e :
-    generated esc h gens root jd = Some l -> In e l ->
-    exists evs pos af, walk h (node_edges true) cut root = Some evs /\ In (g_node e, pos) evs /\
+    generated esc SE h gens root jd = Some l -> In e l ->
+    exists evs pos af, walk h SE cut root = Some evs /\ In (g_node e, pos) evs /\
       In af (gens_of h gens (g_node e)) /\ g_arg e = fst af /\ g_file e = snd af /\
       g_path e = gen_value esc jd pos (snd af).
   Proof.
-    unfold generated. destruct (walk h (node_edges true) cut root) as [evs|] eqn:E; [|discriminate].
+    unfold generated. destruct (walk h SE cut root) as [evs|] eqn:E; [|discriminate].
     intros El Hin. inversion El; subst l. apply in_flat_map in Hin.
     destruct Hin as [[n pos] [Hev He]]. unfold entries_of in He. apply in_map_iff in He.
     destruct He as [af [<- Haf]]. simpl in *. exists evs, pos, af. repeat split; auto.
   Qed.
 
   Theorem inside_jobdir : keys_ok -> files_ok ->
-    forall root jd l e, generated esc h gens root jd = Some l -> In e l ->
+    forall root jd l e, generated esc SE h gens root jd = Some l -> In e l ->
     exists comps, comps <> [] /\ Forall (fun c => plain c = true) comps /\
       g_path e = {| p_root := p_root jd; p_parts := p_parts jd ++ comps |}.
   Proof.
     intros K F root jd l e El Hin.
     destruct (generated_inv _ _ _ _ El Hin) as [evs [pos [af [Ew [Hev [Haf [_ [_ Hp]]]]]]]].
-    destruct (walk_correct h (node_edges true) cut root) as [evs' [Ew' [_ [_ Hpath]]]].
+    destruct (walk_correct h SE cut root) as [evs' [Ew' [_ [_ Hpath]]]].
     rewrite Ew in Ew'. inversion Ew'; subst evs'.
     assert (Hk := path_keys K _ _ _ (Hpath _ _ Hev)).
     assert (Hf := gens_of_files F _ _ Haf).
@@ -208,14 +209,14 @@ Section GenTheorems.
   Qed.
 
   Theorem distinct : all_unamb -> (forall a b, esc a = esc b -> a = b) -> keys_ok -> files_ok ->
-    forall root jd l e1 e2, generated esc h gens root jd = Some l -> In e1 l -> In e2 l ->
+    forall root jd l e1 e2, generated esc SE h gens root jd = Some l -> In e1 l -> In e2 l ->
     (g_node e1, g_file e1) <> (g_node e2, g_file e2) -> g_path e1 <> g_path e2.
   Proof.
     intros U Hinj K F root jd l e1 e2 El H1 H2 Hne Hp.
     destruct (generated_inv _ _ _ _ El H1) as [evs [pos1 [af1 [Ew [Hev1 [Haf1 [_ [Hf1 Hp1]]]]]]]].
     destruct (generated_inv _ _ _ _ El H2) as [evs2 [pos2 [af2 [Ew2 [Hev2 [Haf2 [_ [Hf2 Hp2]]]]]]]].
     rewrite Ew in Ew2. inversion Ew2; subst evs2. clear Ew2.
-    destruct (walk_correct h (node_edges true) cut root) as [evs' [Ew' [Hnd [_ Hpath]]]].
+    destruct (walk_correct h SE cut root) as [evs' [Ew' [Hnd [_ Hpath]]]].
     rewrite Ew in Ew'. inversion Ew'; subst evs'. clear Ew'.
     rewrite Hp1, Hp2 in Hp.
     rewrite !gen_value_plain in Hp;
@@ -224,30 +225,30 @@ Section GenTheorems.
     apply rel_comps_inj in Hc; auto. destruct Hc as [Epos Efile].
     apply Hne. rewrite Hf1, Hf2, Efile. f_equal.
     destruct (Nat.eq_dec (g_node e1) (g_node e2)) as [|Hn]; auto.
-    exfalso. exact (walk_positions_distinct h (node_edges true) cut U root evs _ _ _ _ Ew Hev1 Hev2 Hn Epos).
+    exfalso. exact (walk_positions_distinct h SE cut U root evs _ _ _ _ Ew Hev1 Hev2 Hn Epos).
   Qed.
 
   (* the same file name on the same object: the same path (interpretation fixed in DESIGN.md) *)
   Theorem same_object_same_name : forall root jd l e1 e2,
-    generated esc h gens root jd = Some l -> In e1 l -> In e2 l ->
+    generated esc SE h gens root jd = Some l -> In e1 l -> In e2 l ->
     g_node e1 = g_node e2 -> g_file e1 = g_file e2 -> g_path e1 = g_path e2.
   Proof.
     intros root jd l e1 e2 El H1 H2 En Ef.
     destruct (generated_inv _ _ _ _ El H1) as [evs [pos1 [af1 [Ew [Hev1 [_ [_ [Hf1 Hp1]]]]]]]].
     destruct (generated_inv _ _ _ _ El H2) as [evs2 [pos2 [af2 [Ew2 [Hev2 [_ [_ [Hf2 Hp2]]]]]]]].
     rewrite Ew in Ew2. inversion Ew2; subst evs2.
-    destruct (walk_correct h (node_edges true) cut root) as [evs' [Ew' [Hnd _]]].
+    destruct (walk_correct h SE cut root) as [evs' [Ew' [Hnd _]]].
     rewrite Ew in Ew'. inversion Ew'; subst evs'.
     rewrite En in Hev1. rewrite (NoDup_fst_unique _ _ _ _ Hnd Hev1 Hev2) in Hp1. congruence.
   Qed.
 
   (* reproducible: the result does not depend on the fuel ... *)
   Theorem reproducible_fuel : forall fuel root jd l,
-    generated_fuel esc h gens fuel root jd = Some l -> generated esc h gens root jd = Some l.
+    generated_fuel esc SE h gens fuel root jd = Some l -> generated esc SE h gens root jd = Some l.
   Proof.
     unfold generated_fuel, generated. intros fuel root jd l.
-    destruct (visit h (node_edges true) cut fuel [] root st0) as [st|] eqn:E; [|discriminate].
-    rewrite (walk_fuel_irrelevant h (node_edges true) cut _ _ _ E). auto.
+    destruct (visit h SE cut fuel [] root st0) as [st|] eqn:E; [|discriminate].
+    rewrite (walk_fuel_irrelevant h SE cut _ _ _ E). auto.
   Qed.
 
   (* ... and the layout below the job directory depends on the graph only *)
@@ -257,10 +258,10 @@ Section GenTheorems.
        g_path := {| p_root := p_root jd; p_parts := p_parts jd ++ comps |} |}.
 
   Theorem reproducible_layout : keys_ok -> files_ok -> forall root,
-    exists rels, forall jd, generated esc h gens root jd = Some (map (place jd) rels).
+    exists rels, forall jd, generated esc SE h gens root jd = Some (map (place jd) rels).
   Proof.
     intros K F root. unfold generated.
-    destruct (walk_correct h (node_edges true) cut root) as [evs [Ew [_ [_ Hpath]]]]. rewrite Ew.
+    destruct (walk_correct h SE cut root) as [evs [Ew [_ [_ Hpath]]]]. rewrite Ew.
     exists (flat_map (fun ev => map (fun af => (fst ev, fst af, snd af, rel_comps esc (snd ev) (snd af)))
                                     (gens_of h gens (fst ev))) evs).
     intros jd. f_equal.
@@ -304,6 +305,7 @@ Qed.
 
 Section Reflect.
   Variable esc : str -> str.
+  Variable SE : nat -> node -> list edge.
   Variable h : heap.
   Variable gens : list (list (str * str)).
 
@@ -314,21 +316,21 @@ Section Reflect.
     - split; [discriminate | intros [nd' [H _]]; discriminate].
   Qed.
 
-  Lemma out_edges_range n e : In e (out_edges h (node_edges true) n) -> (n < length h)%nat.
+  Lemma out_edges_range n e : In e (out_edges h SE n) -> (n < length h)%nat.
   Proof.
     unfold out_edges. destruct (nth_error h n) eqn:E; [|intros []].
     intros _. apply nth_error_range. congruence.
   Qed.
 
-  Lemma unambb_sound : unambb h = true -> all_unamb h.
+  Lemma unambb_sound : unambb SE h = true -> all_unamb SE h.
   Proof.
     unfold unambb. rewrite forallb_forall. intros H n e1 e2 H1 H2 X1 X2.
     assert (Hn := out_edges_range _ _ H1).
     assert (Hb := H n ltac:(apply in_seq; lia)). unfold unamb_nodeb in Hb.
     rewrite forallb_forall in Hb.
-    assert (F1 : In e1 (filter (fun e => expandedb h (snd e)) (out_edges h (node_edges true) n)))
+    assert (F1 : In e1 (filter (fun e => expandedb h (snd e)) (out_edges h SE n)))
       by (apply filter_In; split; auto; apply expandedb_spec; auto).
-    assert (F2 : In e2 (filter (fun e => expandedb h (snd e)) (out_edges h (node_edges true) n)))
+    assert (F2 : In e2 (filter (fun e => expandedb h (snd e)) (out_edges h SE n)))
       by (apply filter_In; split; auto; apply expandedb_spec; auto).
     specialize (Hb e1 F1). apply andb_true_iff in Hb. destruct Hb as [Hne Hall].
     split.
@@ -337,7 +339,7 @@ Section Reflect.
       apply is_prefix_spec in Hp. rewrite Hp in Hall. simpl in Hall. apply edge_eqb_eq; auto.
   Qed.
 
-  Lemma keys_plainb_sound : keys_plainb esc h = true -> keys_ok esc h.
+  Lemma keys_plainb_sound : keys_plainb esc SE h = true -> keys_ok esc SE h.
   Proof.
     unfold keys_plainb. rewrite forallb_forall. intros H n e k Hx He Hk.
     assert (Hn := out_edges_range _ _ He).
@@ -431,20 +433,20 @@ Proof.
   rewrite D1, D2. destruct (esc_chars k); [congruence | reflexivity].
 Qed.
 
-Lemma keys_ok_fix h : keys_ok esc_fix h.
+Lemma keys_ok_fix SE h : keys_ok esc_fix SE h.
 Proof. intros n e k _ _ _. apply esc_fix_plain. Qed.
 
 (* ---- packaged statements (props/C17.v) ----------------------------------------------- *)
 (* repaired push: no hypothesis on the keys *)
 Theorem inside_jobdir_fix : forall h gens root jd l e,
-  files_ok gens -> generated esc_fix h gens root jd = Some l -> In e l ->
+  files_ok gens -> generated esc_fix seal_edges h gens root jd = Some l -> In e l ->
   exists comps, comps <> [] /\ Forall (fun c => plain c = true) comps /\
     g_path e = {| p_root := p_root jd; p_parts := p_parts jd ++ comps |}.
 Proof. intros. eapply inside_jobdir; eauto. apply keys_ok_fix. Qed.
 
 Theorem distinct_fix : forall h gens root jd l e1 e2,
-  all_unamb h -> files_ok gens ->
-  generated esc_fix h gens root jd = Some l -> In e1 l -> In e2 l ->
+  all_unamb seal_edges h -> files_ok gens ->
+  generated esc_fix seal_edges h gens root jd = Some l -> In e1 l -> In e2 l ->
   (g_node e1, g_file e1) <> (g_node e2, g_file e2) -> g_path e1 <> g_path e2.
 Proof.
   intros h gens root jd l e1 e2 U F. apply distinct; auto.
@@ -452,13 +454,13 @@ Proof.
 Qed.
 
 Theorem reproducible_layout_fix : forall h gens root, files_ok gens ->
-  exists rels, forall jd, generated esc_fix h gens root jd = Some (map (place jd) rels).
+  exists rels, forall jd, generated esc_fix seal_edges h gens root jd = Some (map (place jd) rels).
 Proof. intros. apply reproducible_layout; auto. apply keys_ok_fix. Qed.
 
 (* the code as it is: for dict keys that are plain names *)
 Theorem distinct_plainkeys : forall h gens root jd l e1 e2,
-  all_unamb h -> keys_ok esc_prefix h -> files_ok gens ->
-  generated esc_prefix h gens root jd = Some l -> In e1 l -> In e2 l ->
+  all_unamb seal_edges h -> keys_ok esc_prefix seal_edges h -> files_ok gens ->
+  generated esc_prefix seal_edges h gens root jd = Some l -> In e1 l -> In e2 l ->
   (g_node e1, g_file e1) <> (g_node e2, g_file e2) -> g_path e1 <> g_path e2.
 Proof. intros h gens root jd l e1 e2 U K F. apply distinct; auto. Qed.
 
@@ -479,16 +481,16 @@ Definition ex_heap : heap :=
     mk 1 [] [];
     mk 1 [] [] ].
 
-Example ex_hyps : unambb ex_heap = true /\ files_plainb ex_gens = true /\ keys_plainb esc_prefix ex_heap = true.
+Example ex_hyps : unambb seal_edges ex_heap = true /\ files_plainb ex_gens = true /\ keys_plainb esc_prefix seal_edges ex_heap = true.
 Proof. vm_compute. auto. Qed.
 
-Example ex_hyps_prop : all_unamb ex_heap /\ files_ok ex_gens /\ keys_ok esc_prefix ex_heap.
+Example ex_hyps_prop : all_unamb seal_edges ex_heap /\ files_ok ex_gens /\ keys_ok esc_prefix seal_edges ex_heap.
 Proof.
   destruct ex_hyps as [A [B C]]. split; [apply unambb_sound; auto|].
   split; [apply files_plainb_sound; auto | apply keys_plainb_sound; auto].
 Qed.
 
-Example ex_generated : exists l, generated esc_fix ex_heap ex_gens 0 ex_jd = Some l /\ length l = 4%nat.
+Example ex_generated : exists l, generated esc_fix seal_edges ex_heap ex_gens 0 ex_jd = Some l /\ length l = 4%nat.
 Proof. eexists. split; [vm_compute; reflexivity | reflexivity]. Qed.
 
 (* ---- refutations: the literal code with dict keys that are not plain names ---------- *)
@@ -498,7 +500,7 @@ Definition bad_heap1 : heap :=
 
 Theorem distinct_prefix_refuted :
   exists h gens root jd l e1 e2,
-    all_unamb h /\ files_ok gens /\ generated esc_prefix h gens root jd = Some l /\
+    all_unamb seal_edges h /\ files_ok gens /\ generated esc_prefix seal_edges h gens root jd = Some l /\
     In e1 l /\ In e2 l /\ g_node e1 <> g_node e2 /\ g_path e1 = g_path e2.
 Proof.
   exists bad_heap1, ex_gens, 0%nat, ex_jd.
@@ -517,7 +519,7 @@ Definition bad_heap2 : heap :=
 
 Theorem inside_prefix_refuted :
   exists h gens root jd l e,
-    files_ok gens /\ generated esc_prefix h gens root jd = Some l /\ In e l /\
+    files_ok gens /\ generated esc_prefix seal_edges h gens root jd = Some l /\ In e l /\
     ~ exists comps, g_path e = {| p_root := p_root jd; p_parts := p_parts jd ++ comps |}.
 Proof.
   exists bad_heap2, ex_gens, 0%nat, ex_jd.
@@ -530,19 +532,20 @@ Qed.
 
 (* with the repaired push the same graphs are fine *)
 Example bad_heaps_repaired :
-  (exists l, generated esc_fix bad_heap1 ex_gens 0 ex_jd = Some l /\
+  (exists l, generated esc_fix seal_edges bad_heap1 ex_gens 0 ex_jd = Some l /\
      map g_path l = [ {| p_root := 1; p_parts := [[74;79;66]; k_out; s_d; [37]; s_otxt] |};
                       {| p_root := 1; p_parts := [[74;79;66]; k_out; s_d; [37;50;69]; s_otxt] |};
                       {| p_root := 1; p_parts := [[74;79;66]; k_out] |} ]) /\
-  (exists l, generated esc_fix bad_heap2 ex_gens 0 ex_jd = Some l /\
+  (exists l, generated esc_fix seal_edges bad_heap2 ex_gens 0 ex_jd = Some l /\
      map g_path l = [ {| p_root := 1; p_parts := [[74;79;66]; k_out; s_d; [37;50;70;97;98;115]; s_otxt] |};
                       {| p_root := 1; p_parts := [[74;79;66]; k_out] |} ]).
 Proof. split; eexists; split; vm_compute; reflexivity. Qed.
 
 
 (* ================================================================================== *)
-(* all_unamb holds for every graph with well-formed names                              *)
+(* all_unamb seal_edges holds for every graph with well-formed names                              *)
 Local Open Scope nat_scope.
+
 (* ---- induction on values (nested lists) ----------------------------------------- *)
 Section ValueInd.
   Variable P : value -> Prop.
@@ -577,19 +580,34 @@ Proof.
   - apply andb_true_iff in H. destruct H; auto.
 Qed.
 
-(* ---- unfolding the nested fixpoints of edges_value --------------------------------- *)
+(* ---- unfolding the nested fixpoints of edges_value_s -------------------------------- *)
 Fixpoint elist (rel : list str) (i : nat) (l : list value) : list edge :=
-  match l with [] => [] | x :: l' => edges_value (rel ++ [dec i]) x ++ elist rel (S i) l' end.
-Fixpoint edict (rel : list str) (l : list (str * value)) : list edge :=
-  match l with [] => [] | (k, x) :: l' => edges_value (rel ++ [k]) x ++ edict rel l' end.
+  match l with [] => [] | x :: l' => edges_value_s (rel ++ [dec i]) x ++ elist rel (S i) l' end.
+Definition groups (rel : list str) (l : list (str * value)) : list (str * list edge) :=
+  map (fun kx => (fst kx, edges_value_s (rel ++ [fst kx]) (snd kx))) l.
 
-Lemma edges_value_list rel l : edges_value rel (VList l) = elist rel 0 l.
+Lemma edges_value_list rel l : edges_value_s rel (VList l) = elist rel 0 l.
 Proof. simpl. generalize 0%nat. induction l as [|x l IH]; intros i; simpl; auto. f_equal. apply IH. Qed.
-Lemma edges_value_dict rel l : edges_value rel (VDict l) = edict rel l.
-Proof. simpl. induction l as [|[k x] l IH]; simpl; auto. f_equal. apply IH. Qed.
+Lemma edges_value_dict rel l : edges_value_s rel (VDict l) = concat (map snd (sort_keys (groups rel l))).
+Proof.
+  simpl. do 3 f_equal. unfold groups. induction l as [|[k x] l IH]; simpl; auto. f_equal. apply IH.
+Qed.
+
+Lemma insert_key_In {A} (kv : str * A) : forall l x, In x (insert_key kv l) <-> x = kv \/ In x l.
+Proof.
+  induction l as [|y l IH]; intros x; simpl.
+  - split; intros [H|H]; auto.
+  - destruct (str_leb (fst kv) (fst y)); simpl; [split; intros [H|H]; auto|].
+    rewrite IH. split; intros H; tauto.
+Qed.
+Lemma sort_keys_In {A} : forall (l : list (str * A)) x, In x (sort_keys l) <-> In x l.
+Proof.
+  induction l as [|y l IH]; intros x; simpl; [tauto|].
+  rewrite insert_key_In, IH. split; intros [H|H]; auto.
+Qed.
 
 Lemma elist_In rel : forall l i e, In e (elist rel i l) <->
-  exists j x, nth_error l j = Some x /\ In e (edges_value (rel ++ [dec (i + j)]) x).
+  exists j x, nth_error l j = Some x /\ In e (edges_value_s (rel ++ [dec (i + j)]) x).
 Proof.
   induction l as [|x l IH]; intros i e; simpl.
   - split; [tauto|]. intros [j [y [H _]]]. destruct j; discriminate.
@@ -602,18 +620,20 @@ Proof.
       * right. exists j, y. rewrite Nat.add_succ_r in Hy. auto.
 Qed.
 
-Lemma edict_In rel : forall l e, In e (edict rel l) <->
-  exists k x, In (k, x) l /\ In e (edges_value (rel ++ [k]) x).
+Lemma edict_In rel l e : In e (concat (map snd (sort_keys (groups rel l)))) <->
+  exists k x, In (k, x) l /\ In e (edges_value_s (rel ++ [k]) x).
 Proof.
-  induction l as [|[k x] l IH]; intros e; simpl.
-  - split; [tauto|]. intros [k [x [[] _]]].
-  - rewrite in_app_iff, IH. split.
-    + intros [H|[k' [y [Hn Hy]]]]; [exists k, x; auto | exists k', y; auto].
-    + intros [k' [y [[Hn|Hn] Hy]]]; [inversion Hn; subst; auto | right; exists k', y; auto].
+  rewrite in_concat. split.
+  - intros [es [Hes He]]. apply in_map_iff in Hes. destruct Hes as [[k es'] [<- Hg]].
+    apply (proj1 (sort_keys_In _ _)) in Hg. unfold groups in Hg. apply in_map_iff in Hg.
+    destruct Hg as [[k' x] [Eg Hin]]. simpl in Eg. inversion Eg; subst. exists k, x. auto.
+  - intros [k [x [Hin He]]]. exists (edges_value_s (rel ++ [k]) x). split; auto.
+    apply in_map_iff. exists (k, edges_value_s (rel ++ [k]) x). split; auto.
+    apply (proj2 (sort_keys_In _ _)). unfold groups. apply in_map_iff. exists (k, x). auto.
 Qed.
 
-(* every label of edges_value rel v extends rel *)
-Lemma edges_value_prefix : forall v rel e, In e (edges_value rel v) -> prefix rel (fst e).
+(* every label of edges_value_s rel v extends rel *)
+Lemma edges_value_prefix : forall v rel e, In e (edges_value_s rel v) -> prefix rel (fst e).
 Proof.
   induction v as [| | |n|l IH|l IH] using value_ind2; intros rel e He; try (simpl in He; tauto).
   - simpl in He. destruct He as [<-|[]]. exists []. simpl. rewrite List.app_nil_r. auto.
@@ -634,7 +654,7 @@ Proof.
 Qed.
 
 Lemma edges_value_unamb : forall v rel, dict_ok v = true ->
-  forall e1 e2, In e1 (edges_value rel v) -> In e2 (edges_value rel v) ->
+  forall e1 e2, In e1 (edges_value_s rel v) -> In e2 (edges_value_s rel v) ->
                 prefix (fst e1) (fst e2) -> e1 = e2.
 Proof.
   induction v as [| | |n|l IH|l IH] using value_ind2; intros rel Hok e1 e2 H1 H2 Hp;
@@ -674,16 +694,16 @@ Proof.
 Qed.
 
 Inductive edge_kind (n : nat) (nd : node) (e : edge) : Prop :=
-| EK_field : forall kv c, In kv (fields nd) -> In e (edges_value [fst kv] (snd kv)) ->
+| EK_field : forall kv c, In kv (fields nd) -> In e (edges_value_s [fst kv] (snd kv)) ->
                           fst e = fst kv :: c -> edge_kind n nd e
 | EK_pre : forall j t, nth_error (pre nd) j = Some t -> e = ([k_pre; dec j], t) -> edge_kind n nd e
 | EK_init : forall j t, nth_error (init nd) j = Some t -> e = ([k_init; dec j], t) -> edge_kind n nd e
 | EK_task : forall t, task nd = Some t -> t <> n -> e = ([], t) -> edge_kind n nd e.
 
-Lemma node_edges_kind n nd e : In e (node_edges true n nd) -> edge_kind n nd e.
+Lemma node_edges_kind n nd e : In e (seal_edges n nd) -> edge_kind n nd e.
 Proof.
-  unfold node_edges. rewrite !in_app_iff. intros [H|[H|[H|H]]].
-  - unfold edges_fields in H. apply in_flat_map in H. destruct H as [kv [Hkv He]].
+  unfold seal_edges. rewrite !in_app_iff. intros [H|[H|[H|H]]].
+  - apply in_flat_map in H. destruct H as [kv [Hkv He]].
     destruct (edges_value_prefix _ _ _ He) as [c Hc]. eapply EK_field; eauto.
   - unfold edges_tasks in H. apply mapi_from_In in H. destruct H as [j [t [Hn ->]]]. eapply EK_pre; eauto.
   - unfold edges_tasks in H. apply mapi_from_In in H. destruct H as [j [t [Hn ->]]]. eapply EK_init; eauto.
@@ -697,7 +717,7 @@ Proof. intros [c E]. inversion E; subst. split; auto. exists c; auto. Qed.
 
 Lemma k_pre_init : k_pre <> k_init. Proof. discriminate. Qed.
 
-Theorem names_wf_unamb h : names_wf h -> task_targets_cut h -> all_unamb h.
+Theorem names_wf_unamb h : names_wf h -> task_targets_cut h -> all_unamb seal_edges h.
 Proof.
   intros W T n e1 e2 H1 H2 X1 X2.
   unfold out_edges in H1, H2. destruct (nth_error h n) as [nd|] eqn:En; [|destruct H1].
@@ -761,9 +781,143 @@ Qed.
 
 Theorem distinct_wf : forall h gens root jd l e1 e2,
   names_wf h -> task_targets_cut h -> files_ok gens ->
-  generated esc_fix h gens root jd = Some l -> In e1 l -> In e2 l ->
+  generated esc_fix seal_edges h gens root jd = Some l -> In e1 l -> In e2 l ->
   (g_node e1, g_file e1) <> (g_node e2, g_file e2) -> g_path e1 <> g_path e2.
 Proof. intros h gens root jd l e1 e2 W T. apply distinct_fix. apply names_wf_unamb; auto. Qed.
 
 Example ex_names_wf : names_wf ex_heap /\ task_targets_cut ex_heap.
 Proof. split; [apply names_wfb_sound | apply task_targets_cutb_sound]; vm_compute; reflexivity. Qed.
+
+(* ---- the key order is a total order: sorting is canonical ----------------------------- *)
+Lemma str_leb_total : forall a b, str_leb a b = false -> str_leb b a = true.
+Proof.
+  induction a as [|x a IH]; destruct b as [|y b]; simpl; try discriminate; auto.
+  destruct (N.ltb_spec x y); [discriminate|]. destruct (N.ltb_spec y x); auto.
+Qed.
+
+Lemma str_leb_antisym : forall a b, str_leb a b = true -> str_leb b a = true -> a = b.
+Proof.
+  induction a as [|x a IH]; destruct b as [|y b]; simpl; try discriminate; auto.
+  destruct (N.ltb_spec x y); destruct (N.ltb_spec y x); try discriminate; try lia.
+  intros H1 H2. assert (x = y) by lia. subst. f_equal. auto.
+Qed.
+
+Lemma str_leb_trans : forall a b c, str_leb a b = true -> str_leb b c = true -> str_leb a c = true.
+Proof.
+  induction a as [|x a IH]; destruct b as [|y b]; destruct c as [|z c]; simpl; try discriminate; auto.
+  destruct (N.ltb_spec x y); destruct (N.ltb_spec y x); destruct (N.ltb_spec y z); destruct (N.ltb_spec z y);
+    destruct (N.ltb_spec x z); destruct (N.ltb_spec z x); try discriminate; try lia; auto.
+  apply IH.
+Qed.
+
+Lemma insert_key_comm {A} (a b : str * A) : fst a <> fst b ->
+  forall l, insert_key a (insert_key b l) = insert_key b (insert_key a l).
+Proof.
+  intros Hne. induction l as [|c l IH]; simpl.
+  - destruct (str_leb (fst a) (fst b)) eqn:Eab; destruct (str_leb (fst b) (fst a)) eqn:Eba; auto.
+    + exfalso. apply Hne. apply str_leb_antisym; auto.
+    + apply str_leb_total in Eab. congruence.
+  - destruct (str_leb (fst b) (fst c)) eqn:Ebc; destruct (str_leb (fst a) (fst c)) eqn:Eac; simpl;
+      rewrite ?Ebc, ?Eac;
+      destruct (str_leb (fst a) (fst b)) eqn:Eab; destruct (str_leb (fst b) (fst a)) eqn:Eba; simpl;
+      rewrite ?Ebc, ?Eac; auto;
+      try (exfalso; apply Hne; apply str_leb_antisym; auto; fail);
+      try (apply str_leb_total in Eab; congruence).
+    + rewrite (str_leb_trans _ _ _ Eab Ebc) in Eac. discriminate.
+    + rewrite (str_leb_trans _ _ _ Eba Eac) in Ebc. discriminate.
+    + f_equal. apply IH.
+Qed.
+
+Lemma sort_keys_perm {A} : forall (l l' : list (str * A)),
+  Permutation l l' -> NoDup (map fst l) -> sort_keys l = sort_keys l'.
+Proof.
+  induction 1 as [|x l l' Hp IH|x y l|l l' l'' H1 IH1 H2 IH2]; intros Nd; simpl; auto.
+  - inversion Nd; subst. f_equal. auto.
+  - apply insert_key_comm. inversion Nd; subst. simpl in H1. intros E. apply H1. left. auto.
+  - rewrite IH1; auto. apply IH2.
+    eapply Permutation_NoDup; [apply Permutation_map; exact H1 | exact Nd].
+Qed.
+
+(* the entries of a dict may be inserted in any order *)
+Theorem dict_order_irrelevant : forall rel l l',
+  Permutation l l' -> NoDup (map fst l) ->
+  edges_value_s rel (VDict l) = edges_value_s rel (VDict l').
+Proof.
+  intros rel l l' Hp Nd. rewrite !edges_value_dict. do 2 f_equal.
+  apply sort_keys_perm.
+  - unfold groups. apply Permutation_map. auto.
+  - unfold groups. rewrite map_map. simpl. auto.
+Qed.
+
+(* ---- the generated values depend on the graph only through the Sealer's edges, the classes
+   and the sealed flags ------------------------------------------------------------------ *)
+Lemma fold_opt_ext_eq {A S} (f g : A -> S -> option S) l :
+  (forall x s, f x s = g x s) -> forall s, fold_opt f l s = fold_opt g l s.
+Proof.
+  intros H. induction l as [|x l IH]; intros s; simpl; auto.
+  rewrite H. destruct (g x s); auto.
+Qed.
+
+Definition heap_sim (SE : nat -> node -> list edge) (h h' : heap) : Prop :=
+  length h = length h' /\
+  forall n nd, nth_error h n = Some nd ->
+    exists nd', nth_error h' n = Some nd' /\ SE n nd = SE n nd' /\ cls nd = cls nd' /\ sealed nd = sealed nd'.
+
+Lemma sim_none SE h h' n : heap_sim SE h h' -> nth_error h n = None -> nth_error h' n = None.
+Proof. intros [L _] H. apply nth_error_None. apply nth_error_None in H. lia. Qed.
+
+Lemma visit_sim SE h h' : heap_sim SE h h' -> forall fuel pos n st,
+  visit h SE (cut_sealed h) fuel pos n st = visit h' SE (cut_sealed h') fuel pos n st.
+Proof.
+  intros Sim. induction fuel as [|f IH]; intros pos n st; simpl; auto.
+  destruct (nth_error h n) as [nd|] eqn:En.
+  - destruct (proj2 Sim n nd En) as [nd' [En' [Ee [_ Es]]]]. rewrite En'.
+    destruct (memb n (visited st)); auto.
+    unfold cut_sealed. rewrite En, En', Es. destruct (sealed nd'); auto.
+    rewrite Ee. rewrite (fold_opt_ext_eq _ (fun e s => visit h' SE (cut_sealed h') f (pos ++ fst e) (snd e) s)); auto.
+  - rewrite (sim_none _ _ _ _ Sim En). auto.
+Qed.
+
+Theorem generated_sim : forall esc SE h h' gens root jd,
+  heap_sim SE h h' -> generated esc SE h gens root jd = generated esc SE h' gens root jd.
+Proof.
+  intros esc SE h h' gens root jd Sim. unfold generated, walk, fuel_bound.
+  rewrite (visit_sim SE h h' Sim), (proj1 Sim).
+  destruct (visit h' SE (cut_sealed h') (S (length h')) [] root st0) as [st|]; auto.
+  f_equal. apply flat_map_ext. intros [n pos]. unfold entries_of. simpl.
+  assert (G : gens_of h gens n = gens_of h' gens n).
+  { unfold gens_of. destruct (nth_error h n) as [nd|] eqn:En.
+    - destruct (proj2 Sim n nd En) as [nd' [En' [_ [Ec _]]]]. rewrite En', Ec. auto.
+    - rewrite (sim_none _ _ _ _ Sim En). auto. }
+  rewrite G. auto.
+Qed.
+
+
+(* ---- the same configuration written with two insertion orders -------------------------- *)
+(* task 0: d = {"a": 1, "b": 1} / d = {"b": 1, "a": 1}; 1 = a leaf shared under both keys *)
+Definition perm_heap1 : heap := [ mk 0 [(s_d, VDict [([97%N], VRef 1); ([98%N], VRef 1)])] []; mk 1 [] [] ].
+Definition perm_heap2 : heap := [ mk 0 [(s_d, VDict [([98%N], VRef 1); ([97%N], VRef 1)])] []; mk 1 [] [] ].
+
+Example perm_heaps_sim : heap_sim seal_edges perm_heap1 perm_heap2.
+Proof.
+  split; [reflexivity|]. intros n nd En.
+  destruct n as [|[|n]]; simpl in En; inversion En; subst.
+  - eexists. split; [reflexivity|]. repeat split.
+  - eexists. split; [reflexivity|]. repeat split.
+  - destruct n; discriminate.
+Qed.
+
+(* the code before fixes/C17-2.diff (dict entries visited in insertion order): same identifier,
+   same job directory, other paths                                                            *)
+Theorem dictorder_insertion_refuted :
+  exists h h' gens root jd,
+    heap_sim seal_edges h h' /\
+    generated esc_fix seal_edges_insertion h gens root jd <> generated esc_fix seal_edges_insertion h' gens root jd.
+Proof.
+  exists perm_heap1, perm_heap2, ex_gens, 0, ex_jd. split; [apply perm_heaps_sim|].
+  vm_compute. intros E. inversion E.
+Qed.
+
+Example perm_heaps_repaired :
+  generated esc_fix seal_edges perm_heap1 ex_gens 0 ex_jd = generated esc_fix seal_edges perm_heap2 ex_gens 0 ex_jd.
+Proof. apply generated_sim, perm_heaps_sim. Qed.
